@@ -374,17 +374,18 @@ func (o *overlay) Get(k []byte) ([]byte, error) {
 func (o *overlay) Location() common.Location { return nil }
 func (o *overlay) Logger() *log.Logger       { return logger }
 
-// addVolume records how many corrupted proofs were evaluated (label counters, not cases).
+// addVolume records how many corrupted proofs were evaluated: one label per 1000 (carry kept
+// between cases), so the evidence histogram shows the volume without being a case count.
+var volCarry = map[string]int{}
+
 func addVolume(part string, flips, drops, swaps, checks int) {
 	for _, e := range []struct {
 		n    int
 		name string
-	}{{flips, "k_bit_flips"}, {drops, "node_drops"}, {swaps, "node_swaps"}, {checks, "k_corrupt_checks"}} {
-		n := e.n
-		if e.name[0] == 'k' {
-			n = (n + 500) / 1000
-		}
-		for i := 0; i < n; i++ {
+	}{{flips, "k_bit_flips"}, {drops, "k_node_drops"}, {swaps, "k_node_swaps"}, {checks, "k_corrupt_proof_verdicts"}} {
+		volCarry[e.name] += e.n
+		for volCarry[e.name] >= 1000 {
+			volCarry[e.name] -= 1000
 			stats.Label(part, e.name)
 		}
 	}
